@@ -24,7 +24,7 @@ def build(seed=0):
 def run(survey, model, grids, workers, file_dir=None):
     import emg3d
     sim = emg3d.Simulation(survey.copy(), model, gridding='dict', gridding_opts=grids, max_workers=workers, receiver_interpolation='linear',
-                           solver_opts=dict(tol=1e-5, maxit=20, verb=0), tqdm_opts=dict(disable=True), verb=-1, file_dir=file_dir)
+                           solver_opts=dict(tol=1e-5, tol_gradient=1e-3, maxit=20, verb=0), tqdm_opts=dict(disable=True), verb=-1, file_dir=file_dir)
     sim.compute()
     syn = np.asarray(sim.data.synthetic.data).copy()
     fields = {f: sim.get_efield('TxED-1', f).field.copy() for f in survey.frequencies}
@@ -40,7 +40,7 @@ def check(tier='quick', seed=0):
     survey, model, grids = build(seed)
     ref = run(survey, model, grids, 1)
     cases = 1
-    cfgs = [(3, False)] if tier == 'quick' else [(2, False), (3, False), (4, False), (1, True), (3, True)]
+    cfgs = [(3, False), (2, True)] if tier == 'quick' else [(2, False), (3, False), (4, False), (1, True), (3, True)]
     for workers, files in cfgs:
         cases += 1
         td = tempfile.mkdtemp(prefix='c11_', dir=None) if files else None
